@@ -51,6 +51,8 @@ def enumerate_models(clauses, nvars, limit=100000):
     s = pycryptosat.Solver()
     for c in clauses:
         s.add_clause(c)
+    if nvars > 0:
+        s.add_clause([nvars, -nvars])   # make the solver aware of every variable
     out = []
     while len(out) < limit:
         ok, sol = s.solve()
